@@ -258,6 +258,112 @@ fn huff_profile_cases(r: &mut Rng, t: Tier, fam: &str, ops: &[&str], extra: &[&s
     }
 }
 
+/// the queries of an `RSQVector` case over the sequence `v`
+fn rsq_queries(r: &mut Rng, c: &mut Case, v: &[u128], ops: &[&str], big: bool) {
+    let n = v.len();
+    let cnt = |s: u128| v.iter().filter(|&&x| x == s).count();
+    let mut poss: Vec<usize> = vec![0, 1, n.saturating_sub(1), n, n + 1, usize::MAX];
+    poss.extend(huge_args(n));
+    if n <= 600 {
+        poss.extend((0..=n + 1).step_by(if n <= 70 { 1 } else { 7 }));
+    }
+    for bb in [128usize, 256, 512, 2048, 4096] {
+        for _ in 0..2 {
+            let k = r.range(0, (n / bb) as u64) as usize * bb;
+            for d in [-1i64, 0, 1] {
+                let p = k as i64 + d;
+                if p >= 0 && (p as usize) <= n + 1 {
+                    poss.push(p as usize);
+                }
+            }
+        }
+    }
+    for _ in 0..(if big { 10 } else { 40 }) {
+        poss.push(r.below(n as u64 + 1) as usize);
+    }
+    poss.sort();
+    poss.dedup();
+    for &op in ops {
+        match op {
+            "get" => {
+                for &p in &poss {
+                    c.l(format!("q 0 get {}", p));
+                }
+            }
+            "get_unchecked" => {
+                for &p in poss.iter().filter(|&&p| p < n) {
+                    c.l(format!("q 0 get_unchecked {}", p));
+                }
+            }
+            "rank" => {
+                for &p in &poss {
+                    for s in 0..4 {
+                        c.l(format!("q 0 rank {} {}", s, p));
+                    }
+                }
+                for s in [4, 5, 7, 128, 255] {
+                    c.l(format!("q 0 rank {} {}", s, r.below(n as u64 + 1)));
+                }
+            }
+            "rank_unchecked" => {
+                for &p in poss.iter().filter(|&&p| p <= n) {
+                    c.l(format!("q 0 rank_unchecked {} {}", r.below(4), p));
+                }
+            }
+            "select" | "select_unchecked" => {
+                for s in 0..4u128 {
+                    let k = cnt(s);
+                    let mut ks = vec![0, 1, k.saturating_sub(1), k, k + 1, usize::MAX, k / 2, 1 << 63, (1 << 63) + k / 2, usize::MAX - k, (1 << 32) + 1];
+                    for m in [8192usize, 16384, 24576] {
+                        if k >= m {
+                            ks.extend([m - 2, m - 1, m]);
+                            if k > m {
+                                ks.push(m + 1);
+                            }
+                        }
+                    }
+                    ks.extend(gap_ks(&v, s));
+                    if k > 0 {
+                        for _ in 0..(if big { 12 } else { 30 }) {
+                            ks.push(r.below(k as u64) as usize);
+                        }
+                    }
+                    ks.sort();
+                    ks.dedup();
+                    for kk in ks {
+                        if op == "select_unchecked" && kk >= k {
+                            continue;
+                        }
+                        c.l(format!("q 0 {} {} {}", op, s, kk));
+                    }
+                }
+                if op == "select" {
+                    for s in [4, 200, 255] {
+                        c.l(format!("q 0 select {} 0", s));
+                    }
+                }
+            }
+            "occs" | "occs_smaller" => {
+                for s in [0, 1, 2, 3, 4, 5, 255] {
+                    c.l(format!("q 0 {} {}", op, s));
+                }
+            }
+            "occs_unchecked" | "occs_smaller_unchecked" => {
+                for s in 0..4 {
+                    c.l(format!("q 0 {} {}", op, s));
+                }
+            }
+            "fwdhist" | "fwdhist_into" => {
+                for _ in 0..3 {
+                    let hl = r.range(1, 40) as usize;
+                    c.l(format!("q 0 {} {}", op, iter_history(r, hl, false)));
+                }
+            }
+            _ => c.l(format!("q 0 {}", op)),
+        }
+    }
+}
+
 fn rsq_cases(r: &mut Rng, t: Tier, ops: &[&str], extra: &[&str], n_cases: usize, out: &mut Vec<Case>) {
     for i in 0..n_cases {
         let b = if i % 2 == 0 { 256 } else { 512 };
@@ -283,107 +389,7 @@ fn rsq_cases(r: &mut Rng, t: Tier, ops: &[&str], extra: &[&str], n_cases: usize,
         for e in extra {
             c.l(e.to_string());
         }
-        let cnt = |s: u128| v.iter().filter(|&&x| x == s).count();
-        let mut poss: Vec<usize> = vec![0, 1, n.saturating_sub(1), n, n + 1, usize::MAX];
-        poss.extend(huge_args(n));
-        if n <= 600 {
-            poss.extend((0..=n + 1).step_by(if n <= 70 { 1 } else { 7 }));
-        }
-        for bb in [128usize, 256, 512, 2048, 4096] {
-            for _ in 0..2 {
-                let k = r.range(0, (n / bb) as u64) as usize * bb;
-                for d in [-1i64, 0, 1] {
-                    let p = k as i64 + d;
-                    if p >= 0 && (p as usize) <= n + 1 {
-                        poss.push(p as usize);
-                    }
-                }
-            }
-        }
-        for _ in 0..(if big { 10 } else { 40 }) {
-            poss.push(r.below(n as u64 + 1) as usize);
-        }
-        poss.sort();
-        poss.dedup();
-        for &op in ops {
-            match op {
-                "get" => {
-                    for &p in &poss {
-                        c.l(format!("q 0 get {}", p));
-                    }
-                }
-                "get_unchecked" => {
-                    for &p in poss.iter().filter(|&&p| p < n) {
-                        c.l(format!("q 0 get_unchecked {}", p));
-                    }
-                }
-                "rank" => {
-                    for &p in &poss {
-                        for s in 0..4 {
-                            c.l(format!("q 0 rank {} {}", s, p));
-                        }
-                    }
-                    for s in [4, 5, 7, 128, 255] {
-                        c.l(format!("q 0 rank {} {}", s, r.below(n as u64 + 1)));
-                    }
-                }
-                "rank_unchecked" => {
-                    for &p in poss.iter().filter(|&&p| p <= n) {
-                        c.l(format!("q 0 rank_unchecked {} {}", r.below(4), p));
-                    }
-                }
-                "select" | "select_unchecked" => {
-                    for s in 0..4u128 {
-                        let k = cnt(s);
-                        let mut ks = vec![0, 1, k.saturating_sub(1), k, k + 1, usize::MAX, k / 2, 1 << 63, (1 << 63) + k / 2, usize::MAX - k, (1 << 32) + 1];
-                        for m in [8192usize, 16384, 24576] {
-                            if k >= m {
-                                ks.extend([m - 2, m - 1, m]);
-                                if k > m {
-                                    ks.push(m + 1);
-                                }
-                            }
-                        }
-                        ks.extend(gap_ks(&v, s));
-                        if k > 0 {
-                            for _ in 0..(if big { 12 } else { 30 }) {
-                                ks.push(r.below(k as u64) as usize);
-                            }
-                        }
-                        ks.sort();
-                        ks.dedup();
-                        for kk in ks {
-                            if op == "select_unchecked" && kk >= k {
-                                continue;
-                            }
-                            c.l(format!("q 0 {} {} {}", op, s, kk));
-                        }
-                    }
-                    if op == "select" {
-                        for s in [4, 200, 255] {
-                            c.l(format!("q 0 select {} 0", s));
-                        }
-                    }
-                }
-                "occs" | "occs_smaller" => {
-                    for s in [0, 1, 2, 3, 4, 5, 255] {
-                        c.l(format!("q 0 {} {}", op, s));
-                    }
-                }
-                "occs_unchecked" | "occs_smaller_unchecked" => {
-                    for s in 0..4 {
-                        c.l(format!("q 0 {} {}", op, s));
-                    }
-                }
-                "fwdhist" | "fwdhist_into" => {
-                    for _ in 0..3 {
-                        let hl = r.range(1, 40) as usize;
-                        c.l(format!("q 0 {} {}", op, iter_history(r, hl, false)));
-                    }
-                }
-                _ => c.l(format!("q 0 {}", op)),
-            }
-        }
+        rsq_queries(r, &mut c, &v, ops, big);
         out.push(c);
     }
 }
@@ -1066,6 +1072,223 @@ fn qv_path_cases(r: &mut Rng, t: Tier, n_cases: usize, space: bool, out: &mut Ve
     }
 }
 
+/// is this a run on a tree whose anchor functions differ from the baseline the model was written against?
+/// (`VERIF_ESCALATE=1`, set by `check`): the quick tier then also runs the large-scale cases of the thorough tier
+fn escalated() -> bool {
+    std::env::var("VERIF_ESCALATE").map(|x| x == "1").unwrap_or(false)
+}
+
+/// a long sequence in which something is *size-gated*: `kind` 0 — one symbol (`rare`) occurs only every
+/// ~n/24 positions (consecutive select samples / hints hundreds of superblocks apart), another (`clus`) only
+/// in one cluster of ~9000 near the start; `kind` 1 — one symbol (`dom`) makes up ~97 % (more than 2^20
+/// occurrences, counters beyond 20 bits); the rest is random over `base`
+fn scale_seq(r: &mut Rng, n: usize, kind: u64, base: &[u128], rare: u128, clus: u128, dom: u128) -> Vec<u128> {
+    let mut v: Vec<u128> = Vec::with_capacity(n);
+    if kind == 0 {
+        let period = (n / 24).max(2);
+        let mut next_rare = r.below(period as u64) as usize;
+        let cl_start = r.below(90_000) as usize;
+        for i in 0..n {
+            if i == next_rare {
+                v.push(rare);
+                next_rare += period - r.below((period / 8) as u64 + 1) as usize;
+            } else if i >= cl_start && i < cl_start + 13_000 && r.chance(2, 3) {
+                v.push(clus);
+            } else {
+                v.push(base[r.below(base.len() as u64) as usize]);
+            }
+        }
+    } else {
+        for _ in 0..n {
+            if r.chance(97, 100) {
+                v.push(dom);
+            } else {
+                v.push(base[r.below(base.len() as u64) as usize]);
+            }
+        }
+    }
+    v
+}
+
+/// large-scale cases (1–2.5 million elements): thorough tier always, quick tier when escalated
+fn scale_cases(prop: &str, r: &mut Rng, out: &mut Vec<Case>) {
+    let tree = |r: &mut Rng, fam: &str, cfg: (usize, bool), ty: (&str, u32), n: usize, kind: u64, ops: &[&str], out: &mut Vec<Case>| {
+        let huff = fam.starts_with('h');
+        let (base, rare, clus, dom): (Vec<u128>, u128, u128, u128) = if kind == 0 { (vec![0, 1, 2, 9], 200, 14, 0) } else { (vec![0, 1, 2, 7, 33], 0, 0, 3) };
+        let v = scale_seq(r, n, kind, &base, rare, clus, dom);
+        let mut c = Case::new(fam);
+        c.tag(format!("fam={}", fam));
+        c.tag("scale");
+        c.tag(format!("cfg={}{}", cfg.0, if cfg.1 { "pfs" } else { "" }));
+        c.tag(format!("scalekind={}", kind));
+        c.nontrivial = true;
+        c.l(format!("cfg {} {} {} * {}", cfg.0, cfg.1 as u8, ty.1, ty.0));
+        if huff {
+            c.l(format!("tie {}", r.next() | 1));
+        }
+        c.l(format!("mk 0 {} {}", fam, join(&v)));
+        if huff {
+            c.l("lenschk 0");
+        }
+        c.l("dump 0");
+        tree_queries(r, &mut c, &v, ty.1, 260, ops, huff);
+        // every occurrence of the rare symbol, and the dominant one around the 2^20-th occurrence
+        let sym = if kind == 0 { rare } else { dom };
+        let cnt = v.iter().filter(|&&x| x == sym).count();
+        for op in ops {
+            if op.starts_with("select") {
+                let ks: Vec<usize> = if kind == 0 { (0..cnt).collect() } else { vec![(1 << 20) - 1, 1 << 20, (1 << 20) + 1, cnt - 1, cnt / 2, 1_050_000.min(cnt - 1)] };
+                for k in ks {
+                    c.l(format!("q 0 {} {} {}", op, sym, k));
+                }
+            } else if op.starts_with("rank") {
+                for _ in 0..24 {
+                    c.l(format!("q 0 {} {} {}", op, sym, n - r.below((n / 8) as u64) as usize));
+                }
+            }
+        }
+        out.push(c);
+    };
+    let rsq = |r: &mut Rng, b: usize, n: usize, kind: u64, ops: &[&str], out: &mut Vec<Case>| {
+        let v = if kind == 0 { scale_seq(r, n, 0, &[0, 1], 3, 2, 0) } else { scale_seq(r, n, 1, &[0, 2, 3], 0, 0, 1) };
+        let mut c = Case::new("rsq");
+        c.tag(format!("B={}", b));
+        c.tag("scale");
+        c.tag(format!("scalekind={}", kind));
+        c.nontrivial = true;
+        c.l("cfg 256 0 8 * u8");
+        c.l(format!("mk 0 rsq {} {}", b, join(&v)));
+        c.l("dump 0");
+        rsq_queries(r, &mut c, &v, ops, true);
+        let sym: u128 = if kind == 0 { 3 } else { 1 };
+        let cnt = v.iter().filter(|&&x| x == sym).count();
+        for op in ops {
+            if op.starts_with("select") {
+                let ks: Vec<usize> = if kind == 0 { (0..cnt).collect() } else { vec![(1 << 20) - 1, 1 << 20, (1 << 20) + 1, cnt - 1, cnt / 2] };
+                for k in ks {
+                    c.l(format!("q 0 {} {} {}", op, sym, k));
+                }
+            } else if op.starts_with("rank") {
+                for _ in 0..24 {
+                    c.l(format!("q 0 {} {} {}", op, sym, n - r.below((n / 8) as u64) as usize));
+                }
+            }
+        }
+        out.push(c);
+    };
+    let bits = |r: &mut Rng, kinds: &[&str], n: usize, shape: u64, ops: &[&str], out: &mut Vec<Case>| {
+        // 0: zeros are rare (one every ~1000), 1: ones are rare, 2: a dense half followed by a sparse half
+        let mut ones: Vec<usize> = vec![];
+        for i in 0..n {
+            let one = match shape {
+                0 => r.below(1000) != 0,
+                1 => r.below(1000) == 0,
+                _ => {
+                    if i < n / 2 {
+                        r.below(4000) != 0
+                    } else {
+                        r.below(3000) == 0
+                    }
+                }
+            };
+            if one {
+                ones.push(i);
+            }
+        }
+        let mut c = Case::new("bits");
+        c.tag("scale");
+        c.tag(format!("scaleshape={}", shape));
+        c.nontrivial = true;
+        c.l("cfg 256 0 8 * u8");
+        c.l(format!("mk 0 bvbits {} {}", n, join(&ones)));
+        for (k, kind) in kinds.iter().enumerate() {
+            let slot = 1 + k;
+            if *kind == "da" {
+                c.l(format!("mk {} da 1 0", slot));
+            } else {
+                c.l(format!("mk {} {} 0", slot, kind));
+            }
+            c.l(format!("dump {}", slot));
+            let ops2: Vec<&str> = ops.iter().copied().filter(|o| *kind != "da" || !o.starts_with("rank")).collect();
+            bits_queries(r, &mut c, slot, n, &ones, &ops2, 120);
+            // the rare bit: every occurrence
+            let n1 = ones.len();
+            let n0 = n - n1;
+            let (op, cnt) = if n0 < n1 { ("select0", n0) } else { ("select1", n1) };
+            if ops.contains(&op) {
+                for k2 in (0..cnt).step_by((cnt / 1500).max(1)) {
+                    c.l(format!("q {} {} {}", slot, op, k2));
+                }
+            }
+        }
+        out.push(c);
+    };
+    let cfg_a = QWT_CFGS[r.below(4) as usize];
+    let cfg_b = QWT_CFGS[(r.below(4) as usize + 2) % 4];
+    let big = |c: (usize, bool)| if c.0 == 512 { 2_300_000usize } else { 1_300_000 };
+    match prop {
+        "C01" => {
+            tree(r, "qwt", cfg_a, TYS[0], big(cfg_a), 0, &["get", "rank", "select", "rank_prefetch"], out);
+            tree(r, "qwt", cfg_b, TYS[1], big(cfg_b), 1, &["get", "rank", "select", "rank_prefetch"], out);
+        }
+        "C02" => {
+            tree(r, "hqwt", cfg_a, TYS[0], big(cfg_a), 0, &["get", "rank", "select", "rank_prefetch"], out);
+            tree(r, "hqwt", cfg_b, TYS[1], big(cfg_b), 1, &["get", "rank", "select"], out);
+            out.push(deepcode_case("hqwt", false));
+        }
+        "C03" => {
+            tree(r, "wt", (256, false), TYS[0], 1_200_000, 0, &["get", "rank", "select"], out);
+            tree(r, "hwt", (256, false), TYS[1], 1_200_000, 0, &["get", "rank", "select"], out);
+            tree(r, "wt", (256, false), TYS[2], 1_200_000, 1, &["get", "rank", "select"], out);
+        }
+        "C09" => {
+            tree(r, "qwt", (cfg_a.0, true), TYS[0], big(cfg_a), 0, &["rank_prefetch", "rank"], out);
+            tree(r, "hqwt", (cfg_b.0, true), TYS[1], big(cfg_b), 1, &["rank_prefetch", "rank"], out);
+        }
+        "C10" => {
+            tree(r, "qwt", cfg_a, TYS[0], big(cfg_a), 0, &["select_unchecked", "select", "rank_unchecked", "rank"], out);
+            rsq(r, 256, 1_300_000, 0, &["select_unchecked", "select", "rank_unchecked", "rank"], out);
+            bits(r, &["rsw", "rsn"], 1_200_000, 0, &["select0_unchecked", "select0", "select1_unchecked", "rank1_unchecked"], out);
+        }
+        "C05" => {
+            rsq(r, 256, 1_300_000, 0, &["get", "rank", "select", "occs"], out);
+            rsq(r, 512, 2_300_000, 0, &["get", "rank", "select"], out);
+            let b3 = if r.chance(1, 2) { 256 } else { 512 };
+            rsq(r, b3, 1_400_000, 1, &["get", "rank", "select", "occs_smaller"], out);
+        }
+        "C06" => {
+            for shape in 0..3 {
+                bits(r, &["rsn", "rsw"], 1_200_000, shape, &["get", "rank1", "rank0", "select1", "select0"], out);
+            }
+        }
+        "C07" => {
+            for shape in 0..3 {
+                bits(r, &["da"], 1_200_000, shape, &["get", "select1", "select0"], out);
+            }
+        }
+        "C04" | "C11" | "C19" => {
+            tree(r, "qwt", cfg_a, TYS[0], big(cfg_a), 0, &["get", "rank", "select"], out);
+            rsq(r, 512, 2_300_000, 0, &["rank", "select"], out);
+            bits(r, &["rsn", "rsw", "da"], 1_200_000, 0, &["rank1", "select1", "select0"], out);
+        }
+        _ => {}
+    }
+}
+
+/// the large-scale cases of a run (once per run, not once per generator seed)
+pub fn scale_cases_for(prop: &str, t: Tier, seed: u64) -> Vec<Case> {
+    let mut out = vec![];
+    if t == Tier::Thorough || escalated() {
+        let pnum: u64 = prop[1..].parse().unwrap_or(0);
+        let mut r = Rng::new(seed.wrapping_mul(7_777_777).wrapping_add(pnum));
+        scale_cases(prop, &mut r, &mut out);
+        if t == Tier::Thorough && prop == "C03" {
+            out.push(deepcode_case("hwt", false));
+        }
+    }
+    out
+}
+
 fn utils_cases(r: &mut Rng, t: Tier, out: &mut Vec<Case>) {
     // select_in_word: crafted words exhaustive over (byte value, k in byte, byte position)
     let mut c = Case::new("utils");
@@ -1205,15 +1428,17 @@ fn utils_cases(r: &mut Rng, t: Tier, out: &mut Vec<Case>) {
 }
 
 /// known finding: a prefix code longer than 32 bits (17 quad levels / 33 binary levels)
-fn deepcode_case(fam: &str) -> Case {
+/// `over` = true: one level more than a 32-bit code word can hold (known finding); false: the deepest code
+/// the crate supports (16 quad levels / 32 binary levels), with every symbol queried
+fn deepcode_case(fam: &str, over: bool) -> Case {
     let mut c = Case::new(fam);
-    c.tag("deepcode");
+    c.tag(if over { "deepcode" } else { "maxdepth" });
     c.nontrivial = true;
     let mut w: Vec<usize> = vec![];
     if fam == "hqwt" {
         let mut m: Vec<usize> = vec![1, 4];
         w.extend([1, 1, 1, 1]);
-        for k in 2..18 {
+        for k in 2..(if over { 18 } else { 17 }) {
             let tt = m[k - 2] + 1;
             w.extend([tt, tt, tt]);
             let nm = m[k - 1] + 3 * tt;
@@ -1221,7 +1446,7 @@ fn deepcode_case(fam: &str) -> Case {
         }
     } else {
         w.extend([1, 1]);
-        while w.len() < 34 {
+        while w.len() < (if over { 34 } else { 33 }) {
             let n = w[w.len() - 1] + w[w.len() - 2];
             w.push(n);
         }
@@ -1240,6 +1465,20 @@ fn deepcode_case(fam: &str) -> Case {
     c.l(format!("q 0 rank 0 {}", n));
     c.l(format!("q 0 rank {} {}", w.len() - 1, n));
     c.l("q 0 select 0 0");
+    if !over {
+        c.l("lenschk 0");
+        let mut start = 0usize;
+        for (sy, cnt) in w.iter().enumerate() {
+            c.l(format!("q 0 get {}", start));
+            c.l(format!("q 0 get {}", start + cnt - 1));
+            c.l(format!("q 0 rank {} {}", sy, start + cnt));
+            c.l(format!("q 0 rank {} {}", sy, n));
+            c.l(format!("q 0 select {} 0", sy));
+            c.l(format!("q 0 select {} {}", sy, cnt - 1));
+            c.l(format!("q 0 select {} {}", sy, cnt));
+            start += cnt;
+        }
+    }
     c
 }
 
@@ -1255,7 +1494,7 @@ pub fn cases(prop: &str, t: Tier, seed: u64) -> Vec<Case> {
             huff_profile_cases(r, t, "hqwt", &["get", "rank", "select"], &["dump 0"], &mut out);
             partc_cases(r, t, &[4], &mut out);
             if t == Tier::Thorough {
-                out.push(deepcode_case("hqwt"));
+                out.push(deepcode_case("hqwt", true));
             }
         }
         "C03" => {
@@ -1264,7 +1503,7 @@ pub fn cases(prop: &str, t: Tier, seed: u64) -> Vec<Case> {
             huff_profile_cases(r, t, "hwt", &["get", "rank", "select"], &["dump 0"], &mut out);
             partc_cases(r, t, &[2], &mut out);
             if t == Tier::Thorough {
-                out.push(deepcode_case("hwt"));
+                out.push(deepcode_case("hwt", true));
             }
         }
         "C05" => rsq_cases(r, t, &["len", "is_empty", "get", "rank", "select", "occs", "occs_smaller"], &["dump 0"], scale(t, 150, 800), &mut out),
@@ -1286,7 +1525,7 @@ pub fn cases(prop: &str, t: Tier, seed: u64) -> Vec<Case> {
                     pfs: cfg.1,
                     ty,
                     path: "",
-                    max_len: if i % 4 == 3 { scale(t, 90_000, 1_500_000) } else { scale(t, 14_000, 120_000) },
+                    max_len: if i % 4 == 3 { scale(t, 90_000, 1_200_000) } else { scale(t, 14_000, 120_000) },
                     ops: &["rank_prefetch", "rank", "rank_prefetch"],
                     budget: 500,
                     extra: &["dump 0"],
@@ -1878,7 +2117,7 @@ pub fn cases(prop: &str, t: Tier, seed: u64) -> Vec<Case> {
             prefetch_api_cases(r, scale(t, 10, 40), &mut out);
             posraw_cases(r, t, &mut out);
             if t == Tier::Thorough {
-                out.push(deepcode_case("hqwt"));
+                out.push(deepcode_case("hqwt", true));
             }
             // default-constructed and empty values, clones and deserialised copies of them
             for (b, pfs) in QWT_CFGS {
